@@ -131,6 +131,22 @@ func syscStream(g *hx.Gen, id int) hx.Case {
 		ops = append(ops, mk(false), r, r)
 		return syscRun("sysc", id, force, ops)
 	}
+	if g.Chance(7) {
+		// directed history: a 304 whose Cache-Control CHANGES the entry's lifetime ("a 304 ... updates its headers while keeping
+		// the body"): afterwards the entry lives by the 304's lifetime, counted from the validation - longer (a request between the
+		// old and the new lifetime is a hit) or shorter (it is revalidated). Seeded change C08-m6: the merge silently a no-op.
+		p := paths[0]
+		version++
+		cc200, cc304, wait := "max-age=5", "max-age=60", 6+g.Intn(20)
+		if g.Bool() {
+			cc200, cc304, wait = "max-age=60", "max-age=5", 61+g.Intn(20)
+		}
+		o := scOp{kind: 'O', path: p, status: 200, cond: true, cc304: cc304, cl0: g.Chance(30), rerr: -1, chunk: g.Chance(20),
+			hdr: [][2]string{{"Cache-Control", cc200}, {"ETag", "\"e" + hx.I(version) + "\""}}, body: []byte("body-" + p + "-v" + hx.I(version) + "-" + g.Str("abcdef", 12))}
+		r := scOp{kind: 'R', method: "GET", path: p}
+		ops := []scOp{o, r, {kind: 'T', dt: wait}, r, {kind: 'T', dt: 6 + g.Intn(40)}, r, {kind: 'T', dt: 1 + g.Intn(60)}, r}
+		return syscRun("sysc", id, force, ops)
+	}
 	if g.Chance(6) {
 		// directed history: the same request with a method other than GET/HEAD twice, on a resource whose
 		// answer would be storable: both must reach the origin (C10), a GET in between or afterwards too
